@@ -242,11 +242,11 @@ SHAPES = [
 
 class Focused(Part):
     """EVERY single preemption at a source line inside the worker's scheduling functions (WorkerPool hand-off,
-    _local_schedulexec, executetask), x 3 alternative threads x 5 continuation patterns, for a fixed list of
-    history shapes plus generated ones"""
+    _local_schedulexec, executetask) x every other runnable thread, for a fixed list of history shapes plus
+    generated ones"""
 
     name = "focused"
-    budget = {"quick": 16, "thorough": 320}
+    budget = {"quick": 32, "thorough": 640}
     min_per_shard = 1
 
     def setup(self, ctx):
@@ -265,26 +265,31 @@ class Focused(Part):
         return out, plan
 
     def run(self, case, ctx):
+        from vlib import explore
+
         judge_out = Sched._judge
         single = case.get("single")
         if single is not None:
-            out, plan = self._run(case, dict(pre=[], blk=BLK_PATTERNS[single[1]]), preempt_at=(single[0],))
+            out, plan = self._run(case, explore.line_sparse(single[1]), preempt_at=(single[0],))
             judge_out(self, case, out, plan)
             return dict(nontrivial=True)
         out0, plan = self._run(case, dict(pre=[], blk=[]), count_lines=True)
         judge_out(self, case, out0, plan)
         n = out0.lines
-        runs, viol = 0, []
-        for line in range(1, n + 1):
-            for bi, blk in enumerate(BLK_PATTERNS):
-                runs += 1
-                try:
-                    out, plan = self._run(case, dict(pre=[], blk=blk), preempt_at=(line,))
-                    judge_out(self, case, out, plan)
-                except Violation as v:
-                    viol.append((v, dict(case, single=[line, bi])))
-                except Inconclusive:
-                    ctx.count("inconclusive_runs")
+
+        def one(line, alt):
+            out, plan = self._run(case, explore.line_sparse(alt), preempt_at=(line,))
+            try:
+                judge_out(self, case, out, plan)
+            except Violation as v:
+                v.sched = out.sched
+                raise
+            return out.sched
+
+        runs, found, inc = explore.single_preemptions(one, n)
+        viol = [(v, dict(case, single=list(la))) for v, la in found]
+        if inc:
+            ctx.count("inconclusive_runs", inc)
         return dict(count=runs, nontrivial_count=runs, violations=viol[:3], nontrivial=True,
                     labels=["shape:" + "-".join(x[0] for x in case["history"])],
                     sample={"history": case["history"], "focus_lines": n, "runs": runs})
